@@ -342,7 +342,7 @@ def gated_values(ctx, f, expr: ast.AST, _depth: int = 0, _seen=None):
         df = X.df(f)
         node = X.node_of(f, expr)
         if expr.id in df.locals and node is not None:
-            defs = df.reaching(node, expr.id)
+            defs = [d for d in df.reaching(node, expr.id) if d.kind != "unbound"]  # "not yet bound" is not a value
             simple = [d for d in defs if d.kind == "assign" and not d.path and d.value is not None and d.node is not None]
             if defs and len(simple) == len(defs):
                 for d in sorted(simple, key=lambda d: d.id):
